@@ -1,7 +1,9 @@
 // ===== prelude/raftlog_spec.rs: RaftLog (copied) and its invariants =====
-/// stand-in for src/file_lock.rs FileLock (held for the lifetime of the owner; see unit U10)
+/*+LOCKSTUB:
+/// stand-in for src/file_lock.rs FileLock (held for the lifetime of the owner; the real one is under contract in unit U10)
 #[verifier::external_body]
 pub struct FileLock { l: () }
+*/
 /// stand-in for src/raft_log/access_state.rs AccessStat (hit/miss counters; rule E21 drops the two fetch_add statements)
 #[verifier::external_body]
 pub struct AccessStat { a: () }
